@@ -79,9 +79,32 @@ def run(tier, seed):
             ast = R.rnd_creq(rnd) if rnd.random() < 0.5 else rnd.choice(LAT_CRATES)
             printed = R.print_creq(ast)
             g = R.g_creq(ast)
+        window = None
+        if i % 6 == 0:
+            # a satisfiable window [lo, hi) written with two clauses in either order, a version inside it and the latest
+            # on / next to the excluded end: which operand anchors the outdated / newer decision matters here
+            M, m = rnd.choice([0, 1, 2, 7]), rnd.choice([0, 2, 9])
+            lo = ('p3', M, m, rnd.choice([0, 3]), '', '')
+            hi = rnd.choice([('p3', M + 1, 0, 0, '', ''), ('p3', M, m + 2, 0, '', ''), ('p3', M, m, 9, '', ''), ('p2', M + 1, 0, 'bare'), ('p1', M + 1, 'bare')])
+            lo_c = (rnd.choice([3, 3, 7, 6, 2]), False, False, lo)
+            hi_c = (rnd.choice([4, 4, 5]), False, False, hi)
+            comps = [lo_c, hi_c] if rnd.random() < 0.5 else [hi_c, lo_c]
+            if ECO[eco] == 0:
+                ast = [('and', comps)]
+                printed, g = R.print_nrange(ast), R.g_nrange(ast)
+            else:
+                ast = comps
+                printed, g = R.print_creq(ast), R.g_creq(ast)
+            hiv = (hi[1], hi[2] if hi[0] != 'p1' else 0, hi[3] if hi[0] == 'p3' else 0)
+            inside = (M, m, lo[3] + 1, '', '')
+            latest_v = rnd.choice([hiv, hiv, (hiv[0], hiv[1], hiv[2] + 1), inside[:3]]) + ('', '')
+            window = [R.print_version(inside), R.print_version(latest_v)] + ([R.print_version((M, m, lo[3], '', ''))] if rnd.random() < 0.5 else [])
         versions = [R.print_version(v) for v in R.versions_near(rnd, ast, 3)]
         rnd.shuffle(versions)
         versions = versions[:rnd.choice([0, 1, 3, 6, 12])]
+        if window is not None:
+            top = R.print_version(latest_v)
+            versions = [v for v in dict.fromkeys(window + versions[:2]) if '-' in v or v == top or tuple(int(x) for x in v.split('+')[0].split('.')) <= latest_v[:3]]
         if rnd.random() < 0.1:
             versions.append(rnd.choice(['garbage', '1.0', 'v1.0.0', '']))
         tags = None
